@@ -25,16 +25,16 @@ REQUIRED = ["odd_rows", "rows_192", "rows_above_192", "keysound_shifts_later_col
 
 
 def anchors():
-    from simfile.notes import NoteData, Note
+    from ..core import pick
 
-    return {
-        "NoteData.__iter__": NoteData.__iter__,
-        "NoteData._iter_measure": NoteData._iter_measure,
-        "NoteData._extract_keysound_indices": NoteData._extract_keysound_indices,
-        "NoteData._get_columns": NoteData._get_columns,
-        "Note.__lt__": Note.__lt__,
-        "Note._comparable": Note._comparable,
-    }
+    return pick(
+        "simfile.notes:NoteData.__iter__",
+        "simfile.notes:NoteData._iter_measure",
+        "simfile.notes:NoteData._extract_keysound_indices",
+        "simfile.notes:NoteData._get_columns",
+        "simfile.notes:Note.__lt__",
+        "simfile.notes:Note._comparable",
+    )
 
 
 def corpus_charts():
